@@ -143,6 +143,10 @@ func wrapEnv() *Env {
 	e.U8, e.U16, e.I8, e.I16, e.I, e.U, e.I32, e.I64, e.U32, e.U64 = 148, 4464, 44, 44, 300, 200, 0, 1<<32, 0, 1<<32
 	e.AI = []int{300, 404, 556, 660} // 300 = 556 = 44 and 404 = 660 = 148 modulo 256; small enough for `1..#` loops in the model
 	e.F64 = 2.5
+	// floats at the edge of exact integer representation: two roundings of `x + 1 + 1` differ from one of `x + 2`
+	e.F32 = 16777216
+	e.Any = 1e16
+	e.AF = []float64{9007199254740992, 1e16, 0.1}
 	return e
 }
 
